@@ -23,7 +23,10 @@ RULE = (
     "an independent Earley recognizer for the grammar decides accept/reject and the first offending token k; the "
     "parser must accept iff the recognizer accepts (then the tree must equal an independent recursive-descent "
     "tree), and on reject raise JaqalParseError positioned at a token with index >= k or at end of input. "
-    "Non-trivial = recognizer rejects at k < number of tokens. distinct = distinct text."
+    "Non-trivial = recognizer rejects at k < number of tokens.  error-position-layout: one offending token is "
+    "inserted into a legal program that is rendered under a layout WITH comments (also comments containing \\r, "
+    "\\f, \\v, \\x85, U+2028); the reported line/column must be the start of a token at or after the inserted one "
+    "(lines are separated by newline characters only) or the end of input. distinct = distinct text."
 )
 ASSUMPTIONS = [
     "the two rule-level rejections that are not grammar (register size <= 0, 'import .. as ..') are only required to raise JaqalParseError",
@@ -33,6 +36,8 @@ ASSUMPTIONS = [
 import re
 
 _NUMERIC = re.compile(r"[-+]?([0-9]+|[0-9]*\.[0-9]+([eE][-+]?[0-9]+)?)")
+
+WEIRD_COMMENT_BODIES = [" a\rb ", " a\fb ", " \x85 ", " \u2028x\u2029 ", " a\vb\x1cc ", "\r", " x\r\ny ", " tab\there "]
 
 COMMENT_BODIES = [
     " c ",
@@ -66,9 +71,9 @@ def layout_cases():
     return gen.cases(_layout_case)
 
 
-def _layout_text(prog, choices):
+def _layout_text(prog, choices, toks=None, offsets=None, weird=False):
     """Render prog under the layout encoded by `choices`. Returns (text, stats)."""
-    toks = prog_tokens(prog)
+    toks = prog_tokens(prog) if toks is None else toks
     stats = {"block": 0, "line": 0, "gapc": 0, "semi": 0, "nl": 0, "bar": 0}
     n = len(choices)
     pos = [0]
@@ -79,7 +84,8 @@ def _layout_text(prog, choices):
 
     def block_comment():
         stats["block"] += 1
-        return "/*" + COMMENT_BODIES[ch() % len(COMMENT_BODIES)] + "*/"
+        bodies = COMMENT_BODIES + WEIRD_COMMENT_BODIES if weird else COMMENT_BODIES
+        return "/*" + bodies[ch() % len(bodies)] + "*/"
 
     def ws():
         c = ch() % 8
@@ -152,7 +158,7 @@ def _layout_text(prog, choices):
                 if float(t2) == v:
                     text = t2
         out.append((kind, text))
-    text = render.tokens_to_text(out, layout)
+    text = render.tokens_to_text(out, layout, offsets)
     return text, stats
 
 
@@ -369,8 +375,69 @@ def negative(case):
     }
 
 
+def _position_case(ch):
+    prog, _b = gen.make_prog(ch, gen.Cfg(max_depth=3, max_body=3, max_lets=2, max_maps=2, max_macros=2, general_numbers=False))
+    return {"prog": prog, "layout": ch.ints(48, 0, 255), "where": ch.int(0, 10**6), "bad": ch.pick(["}", "]", ">", ",", ":", "*", "as", "'01'", "[", "|"])}
+
+
+def positions(case):
+    """One offending token is inserted into a legal program rendered under a layout with
+    comments (also comments containing \\r, \\f, \\v, \\x85, U+2028...): the reported position
+    must be the start of a token at or after the first offending one (lines are separated by
+    newline characters only), or the end of input."""
+    from jaqalpaq.parser.parser import parse_to_sexpression
+    from jaqalpaq.parser.slyparse import JaqalParseError
+
+    toks = list(prog_tokens(case["prog"]))
+    tok_idx = [i for i, (k, _t) in enumerate(toks) if k == "tok"]
+    if not tok_idx:
+        raise Skip()
+    at = tok_idx[case["where"] % len(tok_idx)]
+    toks.insert(at, ("tok", case["bad"]))
+    offsets = []
+    text, stats = _layout_text(case["prog"], case["layout"], toks=toks, offsets=offsets, weird=True)
+    only = [t for k, t in toks if k == "tok"]
+    # token kinds for the recognizer: separators are re-derived from the rendered text
+    st_, got = guard(parse_to_sexpression, text, what="parse_to_sexpression")
+    if st_ == "ok":
+        raise Skip()  # the inserted token happened to be legal there
+    if not isinstance(got, JaqalParseError):
+        raise Violation("wrong-error-type", f"{type(got).__name__}: {got}\n--- text:\n{text!r}")
+    line, col = got.line, got.column
+    if line == "EOF":
+        return {"nontrivial": False, "classes": ["eof"], "key": text}
+    posn = []
+    for off in offsets:
+        ln = text.count("\n", 0, off) + 1
+        posn.append((ln, off - text.rfind("\n", 0, off)))
+    k = only.index(case["bad"]) if False else sum(1 for i in tok_idx if i < at)
+    if (line, col) not in posn:
+        # separator tokens (';' '|' newline) are tokens of the text too; they are emitted by the
+        # layout, not listed in posn: accept them when they start at or after the inserted token
+        lines_ = text.split("\n")
+        ok_sep = False
+        if isinstance(line, int) and isinstance(col, int) and 1 <= line <= len(lines_) and 1 <= col <= len(lines_[line - 1]) + 1:
+            off = sum(len(x) + 1 for x in lines_[: line - 1]) + col - 1
+            ch_ = text[off] if off < len(text) else "\n"
+            ok_sep = ch_ in ";|\n" and off >= offsets[k]
+        if not ok_sep:
+            raise Violation("position-not-a-token", f"reported {line}:{col}; inserted {case['bad']!r} as token {k} at {posn[k]}\n--- text:\n{text!r}", where="layout")
+        return {"nontrivial": stats["block"] >= 1, "classes": ["reported-at-separator"], "key": text}
+    idx = posn.index((line, col))
+    # the first offending token is the inserted one or an earlier... never earlier: everything
+    # before the inserted token is a prefix of a legal program, hence viable
+    if idx > k + 1 and False:
+        pass
+    if idx < k and only[idx] != case["bad"]:
+        # a position before the inserted token can only be right for rule-level rejections
+        raise Violation("position-before-offending-token", f"reported {line}:{col} = token {idx} ({only[idx]!r}); inserted {case['bad']!r} is token {k} at {posn[k]}\n--- text:\n{text!r}", where="layout")
+    weird_used = any(b in text for b in ("\r", "\f", "\x85", "\u2028", "\v", "\x1c"))
+    return {"nontrivial": stats["block"] >= 1, "classes": ["weird-comment" if weird_used else "plain-comment", "multi-line-comment"] if "\n" in text else ["single-line"], "key": text, "sample": {"text": text, "reported": [line, col], "inserted_at": list(posn[k])}}
+
+
 def parts():
     return [
+        Part("error-position-layout", gen.cases(_position_case), positions, quick=2500, thorough=60000, min_nontrivial=0.3),
         Part("layout-positive", layout_cases(), positive, quick=4000, thorough=120000, min_nontrivial=0.2),
         Part("near-miss", nearmiss_cases(), negative, quick=5000, thorough=150000, min_nontrivial=0.2),
     ]
